@@ -4,6 +4,7 @@ use crate::sut::Sut;
 pub mod c11;
 pub mod c17;
 pub mod c18;
+pub mod c19;
 pub mod c20;
 
 macro_rules! dispatch {
@@ -46,5 +47,6 @@ dispatch! {
     "C11" => c11,
     "C17" => c17,
     "C18" => c18,
+    "C19" => c19,
     "C20" => c20,
 }
